@@ -164,6 +164,23 @@ def rnd_psd(g, n, style):
 PSD_STYLES = ["full", "full", "full", "dyadic", "singular", "dyadic-singular", "diag", "zero"]
 
 
+def rnd_scales(g, n):
+    """per-dimension magnitudes (powers of two, so that exactly representable inputs stay exact): all ones (most
+    cases), one tiny / huge overall scale, or mixed scales per dimension"""
+    r = g.r
+    kind = r.choice(["unit"] * 6 + ["tiny", "small", "large", "huge", "mixed", "mixed"])
+    if kind == "unit":
+        return kind, [1.0] * n
+    if kind == "mixed":
+        return kind, [2.0 ** r.randint(-14, 14) for _ in range(n)]
+    e = {"tiny": -27, "small": -13, "large": 10, "huge": 23}[kind]
+    return kind, [2.0 ** e] * n
+
+
+def scale_cov(P, d):
+    return [[P[i][j] * d[i] * d[j] for j in range(len(P))] for i in range(len(P))]
+
+
 # ------------------------------------------------------------------------------------------------ weights stage
 
 def weights_stage(ctx, binary, stats, hist, only=None):
@@ -315,15 +332,19 @@ def sp_case(g, tier):
     n = n0 + sum(nzs)
     c = float(Fraction(alpha) ** 2 * (n + Fraction(kappa)))
     style = r.choice(PSD_STYLES)
-    Ps = [rnd_psd(g, n0, style) for _ in range(k)]
-    means = [g.vec(n0) for _ in range(k)]
-    Qs = [rnd_psd(g, z, r.choice(PSD_STYLES)) for z in nzs]
+    skind, d = rnd_scales(g, n0)
+    Ps = [scale_cov(rnd_psd(g, n0, style), d) for _ in range(k)]
+    means = [[v * d[i] for i, v in enumerate(g.vec(n0))] for _ in range(k)]
+    Qs = []
+    for z in nzs:
+        _, dz = rnd_scales(g, z)
+        Qs.append(scale_cov(rnd_psd(g, z, r.choice(PSD_STYLES)), dz))
     toks = ["sp", str(lin), "0", "0", str(k), str(naug)] + [str(z) for z in nzs] + [hexd(c)]
     toks += [hexd(means[i][j]) for i in range(k) for j in range(n0)]
     toks += [hexd(Ps[i][a][b]) for i in range(k) for b in range(n0) for a in range(n0)]
     for Q in Qs:
         toks += cm_tokens(Q)
-    meta = {"lin": lin, "k": k, "nzs": nzs, "c": c, "style": style, "means": means, "Ps": Ps, "Qs": Qs}
+    meta = {"lin": lin, "k": k, "nzs": nzs, "c": c, "style": style, "scale": skind, "means": means, "Ps": Ps, "Qs": Qs}
     return " ".join(toks), meta
 
 
@@ -370,6 +391,7 @@ def points_stage(ctx, binary, stats, hist, only=None):
         key = "points:lin=%d,noise=%d" % (meta["lin"], n - meta["lin"])
         hist["points:noise-blocks=%d" % len(meta["nzs"])] = hist.get("points:noise-blocks=%d" % len(meta["nzs"]), 0) + 1
         hist["points:cov=" + meta["style"]] = hist.get("points:cov=" + meta["style"], 0) + 1
+        hist["points:scale=" + meta.get("scale", "?")] = hist.get("points:scale=" + meta.get("scale", "?"), 0) + 1
         hist["points:components=%d" % k] = hist.get("points:components=%d" % k, 0) + 1
         if not h.startswith("ok"):
             prop_bad.append(("points-crash", "sigma_point()/augmentWithNoise failed on a valid mixture (%s): %s" % (key, h[:80]), line, h))
@@ -440,10 +462,19 @@ def ut_case(g, tier, idx):
         A = g.mat(ny, n)
     bv = [0.0] * ny if (astyle == "identity" or r.random() < 0.2) else g.vec(ny)
     pstyle = r.choice(PSD_STYLES)
-    Ps = [rnd_psd(g, nx, pstyle) for _ in range(k)]
-    means = [g.vec(nx) for _ in range(k)]
-    Qin = rnd_psd(g, nz, r.choice(PSD_STYLES)) if nz else []
-    Nadd = rnd_psd(g, ny, r.choice(["full", "dyadic", "singular", "zero"])) if mode in ("asm", "amm") else None
+    skind, d = rnd_scales(g, nx)
+    Ps = [scale_cov(rnd_psd(g, nx, pstyle), d) for _ in range(k)]
+    means = [[v * d[i] for i, v in enumerate(g.vec(nx))] for _ in range(k)]
+    Qin = []
+    if nz:
+        _, dz = rnd_scales(g, nz)
+        Qin = scale_cov(rnd_psd(g, nz, r.choice(PSD_STYLES)), dz)
+    Nadd = None
+    if mode in ("asm", "amm"):
+        _, dn = rnd_scales(g, ny)
+        Nadd = scale_cov(rnd_psd(g, ny, r.choice(["full", "dyadic", "singular", "zero"])), dn)
+    if skind in ("tiny", "small", "large", "huge"):
+        bv = [v * d[0] for v in bv]
     toks = ["ut", mode, str(nx), str(nz), str(ny), str(k), hexd(alpha), hexd(beta), hexd(kappa), "1" if valid else "0"]
     toks += cm_tokens(A) + [hexd(v) for v in bv]
     toks += [hexd(means[i][j]) for i in range(k) for j in range(nx)]
@@ -452,7 +483,7 @@ def ut_case(g, tier, idx):
     if Nadd is not None:
         toks += cm_tokens(Nadd)
     meta = {"mode": mode, "nx": nx, "nz": nz, "ny": ny, "k": k, "alpha": alpha, "beta": beta, "kappa": kappa, "valid": valid,
-            "A": A, "b": bv, "means": means, "Ps": Ps, "Qin": Qin, "Nadd": Nadd, "astyle": astyle, "pstyle": pstyle}
+            "A": A, "b": bv, "means": means, "Ps": Ps, "Qin": Qin, "Nadd": Nadd, "astyle": astyle, "pstyle": pstyle, "scale": skind}
     return " ".join(toks), meta
 
 
@@ -544,7 +575,7 @@ def ut_tolerances(n, nx, ny, alpha, beta, kappa, A, b, Xi, mi, Nadd):
     dd = [[dY[i][j] + tol_mean[i] for j in range(N1)] for i in range(ny)]
     d = [[abs(Y[i][j] - ybar[i]) + dd[i][j] for j in range(N1)] for i in range(ny)]
     tol_cov = [[C_UT * sum((nops * wc[j] + twc[j]) * d[a][j] * d[c][j] + wc[j] * (d[a][j] * dd[c][j] + d[c][j] * dd[a][j])
-                           for j in range(N1)) + (4 * EPS * abs(float(Nadd[a][c])) if Nadd is not None else 0.0) + 1e-300
+                           for j in range(N1)) + (16 * EPS * abs(float(Nadd[a][c])) if Nadd is not None else 0.0) + 1e-300
                 for c in range(ny)] for a in range(ny)]
     mf = [float(x) for x in mi]
     din = [[abs(Xf[a][j] - mf[a]) for j in range(N1)] for a in range(nx)]
@@ -725,6 +756,7 @@ def transform_stage(ctx, binary, stats, hist, notes, only=None):
         hist["ut:components=%d" % meta["k"]] = hist.get("ut:components=%d" % meta["k"], 0) + 1
         hist["ut:A=" + meta["astyle"]] = hist.get("ut:A=" + meta["astyle"], 0) + 1
         hist["ut:P=" + meta["pstyle"]] = hist.get("ut:P=" + meta["pstyle"], 0) + 1
+        hist["ut:scale=" + meta.get("scale", "?")] = hist.get("ut:scale=" + meta.get("scale", "?"), 0) + 1
         probs, o, Bs = check_ut_case(line, meta, h, stats, notes)
         first.append((probs, o, Bs))
         if Bs is not None or (o is not None and not meta["valid"]):
